@@ -26,11 +26,13 @@ structure Style where
 /-- decimal digit character of `d < 10` -/
 def digitChar (d : Nat) : Char := Char.ofNat (48 + d)
 
+/-- decimal spelling with fuel (`fuel ≥ n` is always enough) -/
+def natToDecAux : Nat → Nat → List Char
+  | 0, n => [digitChar (n % 10)]
+  | fuel + 1, n => if n < 10 then [digitChar n] else natToDecAux fuel (n / 10) ++ [digitChar (n % 10)]
+
 /-- decimal spelling of a natural number (what `{}` of a `u64` writes), most significant digit first -/
-def natToDec (n : Nat) : List Char :=
-  if h : n < 10 then [digitChar n] else natToDec (n / 10) ++ [digitChar (n % 10)]
-termination_by n
-decreasing_by omega
+def natToDec (n : Nat) : List Char := natToDecAux n n
 
 /-- the spelling of the reserved-word tokens (keywords, commands, data types, modifiers) -/
 def wordSpelling : Token → Option (List Char)
@@ -69,6 +71,25 @@ def renderToken (st : Style) (t : Token) : List Char :=
     | .variable s => '%' :: s
     | _ => []        -- unreachable: the reserved-word tokens are handled by `wordSpelling`
 
+/-- spelling variants the Rust writers actually use: a `NewLine` token may stand for a run of `alt + 1`
+newlines (blank lines after definitions), an `Indentation` is written as a tab or as four spaces
+(`alt = 0`: the style's default, otherwise the other form — `Program` bodies use tabs, DEFFRAME attributes,
+DEFGATE rows and DEFCIRCUIT bodies four spaces).  Every other token has one spelling. -/
+def renderTokenV (st : Style) (alt : Nat) (t : Token) : List Char :=
+  match t with
+  | .newLine => List.replicate (alt + 1) '\n'
+  | .indentation => if st.tabIndent == (alt == 0) then ['\t'] else [' ', ' ', ' ', ' ']
+  | t => renderToken st t
+
+/-- how one token is laid out: a space before it or not, and which spelling variant -/
+structure Form where
+  gap : Bool
+  alt : Nat
+  deriving Repr, DecidableEq, BEq
+
+/-- the form of the next token (`no gap, default spelling` when the list has run out) -/
+def headForm (fs : List Form) : Form := fs.head?.getD ⟨false, 0⟩
+
 /-- one gap: a single space or nothing -/
 def gapText (g : Bool) : List Char := if g then [' '] else []
 
@@ -79,6 +100,17 @@ def renderGaps (st : Style) : List Token → List Bool → List Char
   | [t], _ => renderToken st t
   | t :: u :: ts, [] => renderToken st t ++ renderGaps st (u :: ts) []
   | t :: u :: ts, g :: gs => renderToken st t ++ gapText g ++ renderGaps st (u :: ts) gs
+
+/-- **general layout**: every token with its own form (gap before it, spelling variant) -/
+def renderForms (st : Style) : List Token → List Form → List Char
+  | [], _ => []
+  | t :: ts, fs =>
+    gapText (headForm fs).gap ++ (renderTokenV st (headForm fs).alt t ++ renderForms st ts fs.tail)
+
+/-- forms computed from an adjacent-pair policy (default spellings) -/
+def formsOf (sp : Token → Token → Bool) : Option Token → List Token → List Form
+  | _, [] => []
+  | prev, t :: ts => ⟨(match prev with | some p => sp p t | none => false), 0⟩ :: formsOf sp (some t) ts
 
 /-- gaps computed from an adjacent-pair policy -/
 def gapsOf (sp : Token → Token → Bool) : List Token → List Bool
@@ -104,8 +136,9 @@ def startsWordOrNumber : Token → Bool
 * word-like token, then a token starting with a word character / digit / `.` (`a b`, `a 1`, `H 0`, `AS x`);
 * word-like token, then the operator `-` (`a -` could continue as the identifier `a-b`; one character of
   look-ahead is not enough, so the pair is always separated: the writers print ` - `);
-* integer or float, then a token starting with a word character, a digit or `.` (`1 2`, `1 .5`, `1 i` is kept
-  apart too: `1i` would still lex to the same two tokens, but `1 e5` would not);
+* integer or float, then a token starting with a word character, a digit or `.` (`1 2`, `1 .5`, `1 e5`; the
+  canonical layout also keeps `1 i` apart although `1i` lexes to the same two tokens — the explicit-gap
+  theorem accepts the glued form the writers use for imaginary literals);
 * newline, then newline (a run of `\n` is ONE `NewLine` token).
 Nothing adjacent to an `Indentation` token is ever separated (see `gapAllowed`). -/
 def mustSep (a b : Token) : Bool :=
@@ -121,16 +154,19 @@ def mustSep (a b : Token) : Bool :=
 /-- canonical layout: a space exactly where it is needed -/
 def render (st : Style) (ts : List Token) : List Char := renderWith st mustSep ts
 
-/-- the following text is a delimiter for a number: end of input, or neither a word character nor `.` -/
-def delimB (rest : List Char) : Bool :=
+/-- the following text does not continue a decimal number: end of input, or a character that is none of
+`0-9 _ . e E` and not a radix-prefix letter (`b o x`, either case).  Every delimiter qualifies, and so does
+the `i` the writers glue to imaginary literals (`2i`, `1.0i`). -/
+def numStopB (rest : List Char) : Bool :=
   match rest with
   | [] => true
-  | c :: _ => !(isEnd c || c == '.')
+  | c :: _ => !(isNumChar 10 c || c == '.' || c == 'e' || c == 'E' || lowerAscii c == 'b' ||
+      lowerAscii c == 'o' || lowerAscii c == 'x')
 
 /-- what must hold of the text that follows a token's spelling for the lexer to stop exactly there -/
 def stopOk (t : Token) (rest : List Char) : Bool :=
   match t with
-  | .integer _ | .float _ => delimB rest
+  | .integer _ | .float _ => numStopB rest
   | .newLine => rest.head? != some '\n'
   | t => if isWordLike t then QV.C06.Spec.stopsIdent rest else true
 
@@ -160,14 +196,24 @@ def renderable (st : Style) : List Token → List Bool → Bool
     tokOk t && gapAllowed t u g && stopOk t (gapText g ++ renderGaps st (u :: ts) gs) &&
     renderable st (u :: ts) gs
 
+/-- **Renderable (general layout)**: every token is `tokOk`, no gap directly before an `Indentation`
+(its spaces would run into the indentation's), and after every token the text that actually follows
+stops it. -/
+def renderableF (st : Style) : List Token → List Form → Bool
+  | [], _ => true
+  | t :: ts, fs =>
+    tokOk t && (!(headForm fs).gap || decide (t ≠ .indentation)) &&
+    stopOk t (renderForms st ts fs.tail) && renderableF st ts fs.tail
+
 /-- **the NumTok hypothesis** on the float formatter, for one bit pattern: the spelling starts with a
-visible character and, followed by a delimiter, lexes back to exactly that `Float` token.  (The Rust
+visible character and, followed by text that does not continue a number (`numStopB`), lexes back to
+exactly that `Float` token.  (The Rust
 writers use `{:?}` of the f64; that every such spelling satisfies this is validated differentially by the
 C02–C05 streams, and `QV.C05.C05_real_literal` proves it for every spelling of the real-literal grammar
 whose exact value rounds to `b`.) -/
 structure FmtOk (fmt : Nat → List Char) (b : Nat) : Prop where
   head : ∃ c r, fmt b = c :: r ∧ c ≠ ' ' ∧ c ≠ '\t'
-  lex : ∀ rest, delimB rest = true → lexToken (fmt b ++ rest) = .ok (.float b) rest
+  lex : ∀ rest, numStopB rest = true → lexToken (fmt b ++ rest) = .ok (.float b) rest
 
 /-- token-wise well-formedness alone (what the pair-policy theorems need) -/
 def allTokOk (ts : List Token) : Bool := ts.all tokOk
